@@ -824,12 +824,19 @@ func (s *Stream) handshake(addr string, headers []Header, callback func(err erro
 	if err != nil {
 		callback(err, nil)
 	} else {
-		s.dial(url, func(err error, stream sonic.Stream) {
-			if err == nil {
-				err = s.upgrade(url, stream, headers)
+		var stream sonic.Stream
+		s.dial(url, func(derr error, dstream sonic.Stream) {
+			if derr == nil {
+				derr = s.upgrade(url, dstream, headers)
 			}
-			callback(err, stream)
+			err, stream = derr, dstream
 		})
+		if err != nil {
+			// The handshake failed: do not leave the connection half-open. This cannot be done in the callback above
+			// as it runs while the connection's descriptor is borrowed by the adapter's constructor.
+			_ = s.CloseNextLayer()
+		}
+		callback(err, stream)
 	}
 }
 
